@@ -426,7 +426,10 @@ def gen_foreign_calls(rng, tier, notes):
     try:
         from . import c06
         for k in range(3 * n):
-            out.append(dict(k="worker", module="c06", case=c06.gen_case(rng, "quick"), fam="broadphase-c06", budget=600.0))
+            # rel 1e-6: the collider poses of a world come out of pytransform3d's TransformManager, and the AABB half extents
+            # r*sqrt(1 - n_k^2) of cylinders / cones / disks amplify a 1-ulp difference of an axis-aligned axis to
+            # sqrt(eps)*r ~ 1.5e-8 r (seen: cone after an exact quarter turn, 1.7e-9); index sets and booleans stay exact
+            out.append(dict(k="worker", module="c06", case=c06.gen_case(rng, "quick"), fam="broadphase-c06", budget=600.0, rel=1e-6))
     except Exception as e:  # noqa
         notes.append(f"family broadphase-c06 unavailable: {type(e).__name__}: {str(e)[:120]}")
     try:
@@ -640,6 +643,27 @@ def compare_distance(c, ja, jb, T):
         return f"distance.{fn}: the closest points differ between the modes and are not both valid answers: " + "; ".join(bad)
     T.hit("distance_points_differ_both_valid")
     return None
+
+
+def noise_plane_case(a, b):
+    """class of the C16 known finding F17: some reported tetrahedron pair has an equal-pressure plane whose raw normal is
+    rounding noise (c16 worker's `min_normal_ratio` < 1e-9 in either mode): its direction, hence the forces, depend on 1-ulp
+    differences"""
+    vals = []
+
+    def walk(x):
+        if isinstance(x, dict):
+            for k, v in x.items():
+                if k == "min_normal_ratio" and isinstance(v, (int, float)):
+                    vals.append(float(v))
+                else:
+                    walk(v)
+        elif isinstance(x, list):
+            for v in x:
+                walk(v)
+    walk(a)
+    walk(b)
+    return bool(vals) and min(vals) < 1e-9
 
 
 def tiny_vector(c):
@@ -896,6 +920,9 @@ def run(tier, seed, replay=None):
             what = compare_distance(c, a["ok"]["json"], b["ok"]["json"], T)
             fam_cmp[fam] = fam_cmp.get(fam, 0) + 1
             distinct.add(cm.canon_hash(c["pcase"]))
+        elif c["k"] == "worker" and c.get("module") == "c16" and "F17" in c12.foreign_known("C16") \
+                and noise_plane_case(a["ok"]["json"], b["ok"]["json"]):
+            T.hit("skip_known_F17_noise_plane")
         elif c["k"] in ("worker", "aabbtree") and any(k in a["ok"].get("json", {}) or k in b["ok"].get("json", {})
                                                        for k in ("exc", "harness_exc")):
             ja, jb = a["ok"]["json"], b["ok"]["json"]
